@@ -71,6 +71,10 @@ structure LSetup where
   ss : Nat → Option Nat
   /-- sound test for a quiet initialiser of a statement of function `f` -/
   q : Nat → Expr → Bool
+  /-- the model's unused-assignment verdicts (`Ctx.unusedAsg`) -/
+  ua : List Nat
+  /-- the model's unused-variable verdicts (`Ctx.unusedVars`: declaration statement, local) -/
+  uv : List (Nat × Nat)
 
 def LSetup.nl (L : LSetup) : Nat := L.c.facts.locals.length
 def LSetup.BR (L : LSetup) (g : Nat) : Bool := L.c.bodyReachable.contains g
@@ -96,7 +100,11 @@ def LSetup.baseB (L : LSetup) (f : Nat) (σ : List (Option Nat)) (i : Nat) (es :
 /-- `writes` of a statement that is not a store only repeats variables it reads. -/
 def LSetup.writesOkB (L : LSetup) (i : Nat) : Bool := subset (L.c.writes i) (L.c.reads i)
 
-def LSetup.otherB (L : LSetup) (i : Nat) : Bool := !L.cfg.skip i || L.deadB i
+/-- A statement that is not a store to an own variable: only skipped when unreachable; and (plan
+independent: consistency of the model's verdicts with the program) no unused-assignment or
+unused-variable verdict points at it. -/
+def LSetup.otherB (L : LSetup) (i : Nat) : Bool :=
+  (!L.cfg.skip i || L.deadB i) && !L.ua.contains i && L.uv.all (fun p => p.1 != i)
 
 /-- Statement `j` does not refer to local `l`, directly or through a callee. -/
 def _root_.NaijaVerif.Analysis.Ctx.refFreeB (c : Ctx) (l j : Nat) : Bool :=
@@ -189,11 +197,25 @@ end
 def LSetup.pureFnB (L : LSetup) (g : Nat) (ps : List Param) (body : List Stmt) : Bool :=
   !L.c.pureB g || pureBodyB L.c L.ds L.ss g [blockTag L.ss body, paramTag L.ds ps] body
 
+/-- Consistency of the model's tables and verdicts with THIS occurrence of the store `i` (plan
+independent): the row kind and the recorded class are the statement's, the builtin arities of the
+initialiser are respected, an unused-assignment verdict for `i` means the target is not live after
+this occurrence, an unused-variable verdict for `i` concerns this target, and a declaration the
+model calls removable has no reference to its variable in the rest of its scope. -/
+def LSetup.storeTabB (L : LSetup) (f i : Nat) (isDecl : Bool) (l : Nat) (e : Expr) (st : LS) (rest : List Stmt) : Bool :=
+  ((L.c.row? i).map (·.kind) == some (if isDecl then Kind.assign else Kind.assignExisting)) &&
+  (L.c.clsOf i == classify (fun x => L.c.owner x != some f) e) &&
+  arityOk2 e &&
+  (!L.ua.contains i || !st.live.contains l) &&
+  L.uv.all (fun p => p.1 != i || p.2 == l) &&
+  (!isDecl || !L.c.declRemovable l i || noRefListB L.c l rest)
+
 /-- Rule for `make l get e` (`isDecl`) / `l get e` to an own variable `l`, `st` = liveness state after it. -/
 def LSetup.ownStoreB (L : LSetup) (f : Nat) (σ : List (Option Nat)) (i : Nat) (isDecl : Bool) (l : Nat) (e : Expr)
     (st : LS) (rest : List Stmt) : Bool :=
   L.c.writes i == [l] &&
   (if isDecl then (match L.ds l with | some tg => σ.head? == some (some tg) | none => false) else L.inTags σ l) &&
+  L.storeTabB f i isDecl l e st rest &&
   (!L.cfg.skip i || L.deadB i ||
     (L.q f e && (!st.live.contains l || L.D2 l) && (!isDecl || noRefListB L.c l rest)))
 
